@@ -33,7 +33,8 @@ RULE = (
 )
 ASSUMPTIONS = ["subsets are non-empty and contain only existing nodes"]
 REQUIRED_CLASSES = {t: ["c15:closure_strictly_between", "c15:several_lineages", "part:geff", "part:csv", "c15:after_session", "c15:imported_seg_id_differs",
-                        "c15:export_history_export", "c15:large_sparse_closure"]
+                        "c15:export_history_export", "c15:large_sparse_closure",
+                        "c15:other_selection_exported_before"]
                     for t in ("quick", "thorough")}
 
 
@@ -84,7 +85,12 @@ def _make(rnd, fmt, session=False):
         for _ in range(k):
             pool = leaves if (leaves and rnd.random() < 0.6) else ids
             subset.append(pool[rnd.randint(0, len(pool) - 1)])
+    before = []
+    if ids and rnd.random() < 0.35:
+        # an earlier export of another selection from the same tracks object
+        before = sorted({ids[rnd.randint(0, len(ids) - 1)] for _ in range(rnd.randint(1, 2))})
     return {"init": init, "ops": ops, "mid_ops": mid if session else [], "subset": sorted(set(subset)), "fmt": fmt,
+            "export_before": before, "export_before_fmt": rnd.choice(["geff", "geff", "csv"]),
             "display": rnd.random() < 0.3, "zarr": 3 if rnd.random() < 0.3 else 2}
 
 
@@ -134,6 +140,27 @@ def probe(inp) -> ProbeResult:
                     shutil.rmtree(tmp0, ignore_errors=True)
             for op in inp["mid_ops"]:
                 world.apply(dict(op))
+    if inp.get("export_before") and set(inp["export_before"]) <= set(world.nodes()):
+        from funtracks.import_export import export_to_csv, export_to_geff
+
+        if world.tracks.segmentation is not None:
+            # the masks the user's nodes have before anything is exported are the reference
+            inp = {**inp, "_pristine_seg": np.array(world.tracks.segmentation)}
+
+        tmp0 = Path(tempfile.mkdtemp(prefix="verif-c15-"))
+        try:
+            with warnings.catch_warnings():
+                warnings.simplefilter("ignore")
+                if inp.get("export_before_fmt") == "csv":
+                    kw = {"export_seg": True, "seg_path": tmp0 / "s.tif"} if world.tracks.segmentation is not None else {}
+                    export_to_csv(world.tracks, tmp0 / "first.csv", node_ids=set(inp["export_before"]), **kw)
+                else:
+                    export_to_geff(world.tracks, tmp0 / "first", node_ids=list(inp["export_before"]))
+            res.tags.append("c15:other_selection_exported_before")
+        except Exception:  # noqa: BLE001 - judged by the final export only
+            pass
+        finally:
+            shutil.rmtree(tmp0, ignore_errors=True)
     if inp.get("ops"):
         res.tags.append("c15:after_session")
     if not set(inp["subset"]) <= set(world.nodes()):
@@ -166,7 +193,7 @@ def _probe_csv(res, inp, world, tr, closure, parent, tmp):
 
     from funtracks.import_export import export_to_csv
 
-    seg = tr.segmentation
+    seg = inp.get("_pristine_seg") if inp.get("_pristine_seg") is not None else tr.segmentation
     display = inp["display"]
     kwargs = {}
     if seg is not None and not display:
@@ -204,7 +231,7 @@ def _probe_geff(res, inp, world, tr, closure, induced, tmp):
 
     from funtracks.import_export import export_to_geff
 
-    seg = tr.segmentation
+    seg = inp.get("_pristine_seg") if inp.get("_pristine_seg") is not None else tr.segmentation
     export_to_geff(tr, tmp / "g", node_ids=set(inp["subset"]), zarr_format=inp["zarr"])
     g, _ = geff.read(tmp / "g" / "tracks")
     ids = {int(n) for n in g.nodes}
